@@ -54,7 +54,6 @@ struct EnvState {
     u64 under_lock_accesses = 0;
     int last_freed = -1;
     u64 seam_count[EV_NKINDS] = {0};
-    const u8* watch_p = nullptr; size_t watch_n = 0; u64 watch_hits = 0; bool watch_armed = false;   // caller's key buffer during polyseed_keygen
     int task_blk_seq[MAXT + 1] = {0};
     Rng sched_rng{1};
     bool seam_chase = false, write_chase = false, yield_at_op = false;
